@@ -873,3 +873,28 @@ func (s *tracked) fullCompare(keys []string) *mismatch {
 	}
 	return nil
 }
+
+// modelApply applies a mutation to a model only (no backend involved).
+func modelApply(m *kvmodel.Model, o op) {
+	k := []byte(o.Key)
+	switch o.Kind {
+	case "Put":
+		m.Put(k, o.Val.bytes())
+	case "Delete":
+		m.Delete(k)
+	case "Append":
+		m.PrefixAppend(k, []byte(o.Child))
+	case "Remove":
+		m.PrefixRemove(k, []byte(o.Child))
+	case "Import":
+		vals := make([]kvmodel.Transfer, len(o.Keys))
+		for i := range o.Keys {
+			vals[i] = o.Transfers[i].model()
+		}
+		m.Import(byteKeys(o.Keys), vals)
+	case "RemoveKeys":
+		m.RemoveKeys(byteKeys(o.Keys))
+	default:
+		panic("harness: modelApply: not a mutation: " + o.Kind)
+	}
+}
